@@ -1,4 +1,6 @@
 import TriompheModel.Model.Ops
+import TriompheModel.Proofs.HistLemmasStep
+import TriompheModel.Proofs.HistLemmasLogStep
 /-!
 # The invariant of the sequential handle machine (M1) and its preservation by every op
 
@@ -7,6 +9,9 @@ the refinement invariant from which the history halves of C01, C03, C04, C08, C0
 follow (Props/C*.lean).  Proved for `State.init`, preserved by `step s op` for EVERY op (including
 callback scripts, iterator-scripted constructors with panics/lies, panicking `Clone`), hence true
 of `run ops` for every finite history `ops`.
+
+The case analysis lives in `Proofs/HistLemmas*.lean` (over the pointwise form `Inv'`); this file
+shows `Inv s ↔ Inv' s` and states the results.
 -/
 namespace M1
 
@@ -25,5 +30,246 @@ structure Inv (s : State) : Prop where
   keys : (s.slots.map (·.1)).Nodup
   /-- a `UniqueArc` is the only owner of its block -/
   uniq : ∀ e, e ∈ s.slots → e.2.kind = .uniq → owners s e.2.blk = 1
+
+theorem Inv.toInv' {s : State} (h : Inv s) : Inv' s where
+  good := by
+    intro b c lv lk hc
+    obtain ⟨k, hk, hcore⟩ := cv_eq_some hc
+    simp only [Block.core, Prod.mk.injEq] at hcore
+    obtain ⟨rfl, rfl, rfl⟩ := hcore
+    exact ⟨h.cnt b k hk, h.dead b k hk, h.leak b k hk⟩
+  inb := by
+    intro e he hn
+    have := h.inb e he
+    rw [cv_eq_none_iff] at hn
+    omega
+  keys := h.keys
+  uniq := h.uniq
+
+theorem Inv'.toInv {s : State} (h : Inv' s) : Inv s where
+  cnt := fun b k hk hl hlk => (h.good b _ _ _ (cv_of_get hk)).1 hl hlk
+  dead := fun b k hk hl => (h.good b _ _ _ (cv_of_get hk)).2.1 hl
+  leak := fun b k hk hl => (h.good b _ _ _ (cv_of_get hk)).2.2 hl
+  inb := by
+    intro e he
+    have := h.inb e he
+    rw [Ne, cv_eq_none_iff] at this
+    omega
+  keys := h.keys
+  uniq := h.uniq
+
+theorem inv_iff (s : State) : Inv s ↔ Inv' s := ⟨Inv.toInv', Inv'.toInv⟩
+
+/-- the empty machine satisfies the invariant -/
+theorem inv_init : Inv State.init := Inv'.init.toInv
+
+/-- every op (whatever its arguments, scripts included) preserves the invariant -/
+theorem inv_step (s : State) (op : Op) (h : Inv s) : Inv (step s op).1 :=
+  (inv'_step h.toInv' op).toInv
+
+theorem inv_run_from (s : State) (h : Inv s) (ops : List Op) :
+    Inv (ops.foldl (fun s o => (step s o).1) s) := by
+  induction ops generalizing s with
+  | nil => exact h
+  | cons o r ih => exact ih _ (inv_step s o h)
+
+/-- the invariant holds after every finite history -/
+theorem inv_run (ops : List Op) : Inv (run ops) := inv_run_from _ inv_init ops
+
+/-! ## consequences used by the property theorems -/
+
+/-- a slot's block exists, is live and not abandoned, and its count word is its number of owners -/
+theorem slot_block {s : State} (hi : Inv s) {i : Nat} {h : HV} (hl : lookup s i = some h) :
+    ∃ k, s.mem.blocks[h.blk]? = some k ∧ k.live = true ∧ k.leaked = false ∧ k.count = owners s h.blk := by
+  obtain ⟨k, hk, hc⟩ := cv_eq_some (hi.toInv'.view hl)
+  simp only [Block.core, Prod.mk.injEq] at hc
+  exact ⟨k, hk, hc.2.1, hc.2.2, hc.1⟩
+
+/-- [C04] the count word read through any slot handle is the number of owning handle values -/
+theorem count_eq_owners {s : State} (hi : Inv s) {i : Nat} {h : HV} (hl : lookup s i = some h) :
+    loadCount s.mem h.blk = owners s h.blk ∧
+      ∃ k, s.mem.blocks[h.blk]? = some k ∧ k.live = true ∧ k.leaked = false := by
+  obtain ⟨k, hk, h1, h2, _⟩ := slot_block hi hl
+  exact ⟨hi.toInv'.loadCount_eq hl, k, hk, h1, h2⟩
+
+/-- `strong_count` / `count` through the `Arc` a slot handle stands for -/
+theorem strong_count_eq_owners {s : State} (hi : Inv s) {i : Nat} {h : HV} (hl : lookup s i = some h) :
+    Arc.strong_count s.mem (asArc s.mem h) = owners s h.blk ∧
+    Arc.count s.mem (asArc s.mem h) = owners s h.blk := by
+  simp only [Arc.strong_count, Arc.count, asArc_blk]
+  exact ⟨hi.toInv'.loadCount_eq hl, hi.toInv'.loadCount_eq hl⟩
+
+/-- [C03] `is_unique` answers `true` exactly when the handle is the only owner -/
+theorem is_unique_iff {s : State} (hi : Inv s) {i : Nat} {h : HV} (hl : lookup s i = some h) :
+    Arc.is_unique s.mem (asArc s.mem h) = true ↔ owners s h.blk = 1 := by
+  rw [is_unique_iff_loadCount, asArc_blk, hi.toInv'.loadCount_eq hl]
+
+/-- [C01] a (non-abandoned) block is live exactly as long as some handle value owns it -/
+theorem live_iff_owned {s : State} (hi : Inv s) {b : Nat} {k : Block} (hk : s.mem.blocks[b]? = some k)
+    (hlk : k.leaked = false) : k.live = true ↔ 0 < owners s b := by
+  constructor
+  · intro hl
+    have := hi.cnt b k hk hl hlk
+    omega
+  · intro hp
+    cases hlv : k.live with
+    | true => rfl
+    | false => have := hi.dead b k hk hlv; omega
+
+/-- an abandoned (leaked) block is never referred to, and is never freed or touched again -/
+theorem leaked_unowned {s : State} (hi : Inv s) {b : Nat} {k : Block} (hk : s.mem.blocks[b]? = some k)
+    (hlk : k.leaked = true) : owners s b = 0 := hi.leak b k hk hlk
+
+/-- a `UniqueArc` in a slot sees count 1 -/
+theorem uniq_count_one {s : State} (hi : Inv s) {i : Nat} {h : HV} (hl : lookup s i = some h)
+    (hu : h.kind = .uniq) : loadCount s.mem h.blk = 1 := by
+  rw [hi.toInv'.loadCount_eq hl]; exact hi.uniq _ (lookup_mem hl) hu
+
+/-! ## the allocation log (`LogInv`, declared in `Proofs/HistLemmasLog.lean`)
+
+`LogInv m`: exactly one `alloc` event per block, carrying the layout stored in the block; a
+`dealloc` event iff the block is not live, and then exactly one; the `alloc` event comes first.
+The layout a `dealloc` event records is `t.releaseLayout len` of the releasing view
+(`decr_log`, `into_inner_log`, `dropHandle_eq`); relating it to the `alloc` layout is the business
+of the layout component. -/
+
+theorem log_init : LogInv State.init.mem := LogInv.init
+
+/-- every op keeps the allocation log disciplined (given the count invariant) -/
+theorem loginv_step (s : State) (op : Op) (h : Inv s) (hl : LogInv s.mem) : LogInv (step s op).1.mem :=
+  log_step h.toInv' hl op
+
+theorem invs_run_from (s : State) (h : Inv s) (hl : LogInv s.mem) (ops : List Op) :
+    Inv (ops.foldl (fun s o => (step s o).1) s) ∧ LogInv (ops.foldl (fun s o => (step s o).1) s).mem := by
+  induction ops generalizing s with
+  | nil => exact ⟨h, hl⟩
+  | cons o r ih => exact ih _ (inv_step s o h) (loginv_step s o h hl)
+
+/-- the allocation log is disciplined after every finite history -/
+theorem loginv_run (ops : List Op) : LogInv (run ops).mem :=
+  (invs_run_from _ inv_init log_init ops).2
+
+/-- in a list with at most one element satisfying `p`, two positions satisfying `p` coincide -/
+theorem countP_le_one_unique {α : Type} {p : α → Bool} :
+    ∀ {l : List α}, l.countP p ≤ 1 → ∀ {i j : Nat} {x y : α}, l[i]? = some x → p x = true →
+      l[j]? = some y → p y = true → i = j := by
+  intro l
+  induction l with
+  | nil => intro _ i j x y hx; simp at hx
+  | cons a r ih =>
+    intro hc i j x y hx hpx hy hpy
+    rw [List.countP_cons] at hc
+    have hpos : ∀ {n : Nat} {z : α}, r[n]? = some z → p z = true → 0 < r.countP p := by
+      intro n z hz hpz
+      rw [List.countP_pos_iff]
+      exact ⟨z, List.mem_of_getElem? hz, hpz⟩
+    cases i with
+    | zero =>
+      cases j with
+      | zero => rfl
+      | succ j' =>
+        simp only [List.getElem?_cons_zero, Option.some.injEq] at hx
+        simp only [List.getElem?_cons_succ] at hy
+        subst hx
+        have := hpos hy hpy
+        simp only [hpx, if_true] at hc
+        omega
+    | succ i' =>
+      simp only [List.getElem?_cons_succ] at hx
+      cases j with
+      | zero =>
+        simp only [List.getElem?_cons_zero, Option.some.injEq] at hy
+        subst hy
+        have := hpos hx hpx
+        simp only [hpy, if_true] at hc
+        omega
+      | succ j' =>
+        simp only [List.getElem?_cons_succ] at hy
+        have : r.countP p ≤ 1 := by omega
+        rw [ih this hx hpx hy hpy]
+
+section LogFacts
+variable {m : Mem} (hl : LogInv m)
+include hl
+
+/-- a block index has at most one `dealloc` event -/
+theorem dealloc_le_one (b : Nat) : m.log.countP (isDealloc b) ≤ 1 := by
+  cases hk : m.blocks[b]? with
+  | none =>
+    have := hl.ndo b (by simpa using hk)
+    omega
+  | some k =>
+    have := hl.nd b k hk
+    split at this <;> omega
+
+/-- two `dealloc` events of the same block are the same event: no double free -/
+theorem dealloc_unique {i j b sz al sz' al' : Nat} (hi : m.log[i]? = some (Event.dealloc b sz al))
+    (hj : m.log[j]? = some (Event.dealloc b sz' al')) : i = j :=
+  countP_le_one_unique (dealloc_le_one hl b) hi (by simp [isDealloc]) hj (by simp [isDealloc])
+
+/-- a block has a `dealloc` event iff it is not live -/
+theorem dealloc_iff_dead {b : Nat} {k : Block} (hk : m.blocks[b]? = some k) :
+    (∃ sz al : Nat, Event.dealloc b sz al ∈ m.log) ↔ k.live = false := by
+  have h1 := hl.nd b k hk
+  constructor
+  · rintro ⟨sz, al, hm⟩
+    have : 0 < m.log.countP (isDealloc b) := by
+      rw [List.countP_pos_iff]; exact ⟨_, hm, by simp [isDealloc]⟩
+    cases hlv : k.live with
+    | false => rfl
+    | true => rw [hlv, if_pos rfl] at h1; omega
+  · intro hlv
+    rw [hlv, if_neg (by decide)] at h1
+    have : 0 < m.log.countP (isDealloc b) := by omega
+    rw [List.countP_pos_iff] at this
+    obtain ⟨e, he, hp⟩ := this
+    cases e <;> simp only [isDealloc, beq_iff_eq] at hp
+    case dealloc b' sz al => subst hp; exact ⟨sz, al, he⟩
+    all_goals cases hp
+
+/-- events only mention blocks that exist -/
+theorem dealloc_inb {b sz al : Nat} (hm : Event.dealloc b sz al ∈ m.log) : b < m.blocks.length := by
+  rcases Nat.lt_or_ge b m.blocks.length with h | h
+  · exact h
+  · have := hl.ndo b h
+    rw [List.countP_eq_zero] at this
+    have := this _ hm
+    simp [isDealloc] at this
+
+/-- exactly one `alloc` event per existing block -/
+theorem alloc_unique {i j b sz al sz' al' : Nat} (hi : m.log[i]? = some (Event.alloc b sz al))
+    (hj : m.log[j]? = some (Event.alloc b sz' al')) : i = j := by
+  have : m.log.countP (isAlloc b) ≤ 1 := by
+    have := hl.na b
+    split at this <;> omega
+  exact countP_le_one_unique this hi (by simp [isAlloc]) hj (by simp [isAlloc])
+
+/-- the `alloc` event of a block precedes its `dealloc` event (every `alloc` event of that block
+index, since there is only one) -/
+theorem alloc_before_dealloc {i j b sz al sz' al' : Nat} (hi : m.log[i]? = some (Event.dealloc b sz al))
+    (hj : m.log[j]? = some (Event.alloc b sz' al')) : j < i := by
+  obtain ⟨j', hlt, sz'', al'', hj'⟩ := hl.ord i b sz al hi
+  rw [alloc_unique hl hj hj']; exact hlt
+
+/-- the `alloc` event carries the layout stored in (requested for) the block -/
+theorem alloc_layout {b sz al : Nat} (hm : Event.alloc b sz al ∈ m.log) :
+    ∃ k : Block, m.blocks[b]? = some k ∧ k.lay = ⟨sz, al⟩ := hl.lay b sz al hm
+
+end LogFacts
+
+/-! ## non-vacuity: a concrete history in which the invariant says something -/
+
+/-- two owners (a raw pointer and a clone made inside a `with_arc` callback) of block 0 after the
+original `Arc` was dropped; block 1 was a `UniqueArc` consumed by `into_inner` -/
+def exampleHistory : List Op :=
+  [.create 0 (.new ⟨1, 7⟩), .clone 1 0, .conv 1 .intoRaw, .create 2 (.uniqueNew ⟨2, 8⟩),
+   .withCb 0 .borrowWithArc [.cloneTo 5, .cnt], .drop 0, .intoInner 2]
+
+example : owners (run exampleHistory) 0 = 2 ∧ loadCount (run exampleHistory).mem 0 = 2 ∧
+    owners (run exampleHistory) 1 = 0 ∧
+    (run exampleHistory).mem.log = [.alloc 0 16 8, .alloc 1 16 8, .dealloc 1 16 8] := by decide
+
+example : Inv (run exampleHistory) ∧ LogInv (run exampleHistory).mem :=
+  ⟨inv_run _, loginv_run _⟩
 
 end M1
